@@ -73,4 +73,18 @@ PROPS.update({
     },
 })
 
+PROPS["C08"] = {
+    "text": "Theorems over a model of Python's call binding and of both converters, for all signatures and payloads: every value "
+            "handed to a parameter is the payload entry of its name or else its default; a payload lacking a parameter without "
+            "default fails the execution under both converters; an argument-less job converts when all parameters have defaults; "
+            "Basic and Pydantic produce equal calls on every signature both accept; unsupported declarations are rejected at "
+            "declaration. The *args-after-keyword spill is REFUTED by witness (known finding). The binding model itself is tied "
+            "to CPython by ~6k generated signature x payload x converter cases per quick run with real exec'd functions.",
+    "note": "pydantic validation is modelled as lookup/default/error with extras ignored (values already of the annotated type); "
+            "that the call binds defaults for an empty payload is established on the executable model by correspondence, not by a "
+            "general theorem about pycall; return-value round trip is a test.",
+    "technique": "Coq proof over an executable model of call binding + differential correspondence against exec'd functions",
+    "design": "DESIGN.md §3 C08",
+}
+
 PENDING_REASON = "machinery for this property is not built yet in this revision of /verif (construction order: DESIGN.md §5)"
